@@ -576,16 +576,17 @@ fn resize_stream<F: Read + Write + Seek>(
             // Case 3c: The new length is still too large to fit in a mini
             // chain.  Therefore, we just need to adjust the length of the
             // existing chain.
-            let sector_len = minialloc.version().sector_len() as u64;
             let mut chain =
                 minialloc.open_chain(old_start_sector, SectorInit::Zero)?;
+            // Everything the chain already holds beyond the old length may be
+            // stale: the rest of the old final sector (data from before an
+            // earlier truncation), and any further sectors of a chain that
+            // is longer than the stream needed (as other writers leave them).
+            let old_end = chain.len();
             chain.set_len(new_stream_len)?;
             debug_assert_eq!(chain.start_sector_id(), old_start_sector);
             if new_stream_len > old_stream_len {
-                // New sectors are zeroed when allocated, but the rest of the
-                // old final sector may hold data from before an earlier
-                // truncation.
-                let old_end = old_stream_len.div_ceil(sector_len) * sector_len;
+                // Sectors added by set_len are zeroed when allocated.
                 zero_fill(
                     &mut chain,
                     old_stream_len,
